@@ -26,7 +26,9 @@ def write_evidence(prop, pid, tier, master, agg, n_viol, wall_s, known_hits, det
     for i in range(3):
         s = R.run_seed(master, pid, i)
         try:
-            sc = prop.generate(s, tier)
+            from . import runner as _runner
+
+            sc = _runner.gen(prop, s, tier)
             w = sc.get("world", {})
             samples.append(
                 {
